@@ -80,7 +80,7 @@ def run_one(check, sched, known, keep_log=False, timeout=None):
     seams.seed_global_prngs(rk)
     ctx.ev("seed-material", sched.get("seed"), check.pid, sched.get("run"), rk)
     res = {"run": sched.get("run"), "viol": None, "excluded": None, "timeout": False, "error": None}
-    t = timeout or check.run_timeout_s
+    t = timeout or float(os.environ.get("VERIF_RUN_TIMEOUT", "0")) or check.run_timeout_s
     old = signal.signal(signal.SIGALRM, _alarm)
     signal.setitimer(signal.ITIMER_REAL, t)
     try:
@@ -276,6 +276,26 @@ def run_check(check, tier, seed=None, nruns=None, workers=None, budget=None, wri
             except Exception:
                 pass
     search_s = _time.time() - t0
+
+    # a run that hit its wall-clock guard inside the loaded pool is executed once more here, alone and with a wider guard:
+    # only a run that exceeds that too counts as a harness error (a slow machine must neither pass nor fail a check)
+    retried = []
+    for e, sched in agg["errors"]:
+        if e == "timeout" and sched is not None and len(retried) < 8 and not broken:
+            r = run_one(check, sched, known, timeout=4 * check.run_timeout_s)
+            if not r["timeout"]:
+                retried.append(sched.get("run"))
+                agg["timeouts"] -= 1
+                if r["error"]:
+                    agg["errors"].append((r["error"], sched))
+                if r["viol"]:
+                    r["sched"] = sched
+                    agg["viols"].append(r)
+                if r["excluded"]:
+                    agg["excluded"][r["excluded"]] += 1
+    if retried:
+        agg["errors"] = [(e, s_) for e, s_ in agg["errors"] if not (e == "timeout" and s_ is not None and s_.get("run") in retried)]
+        out("note: %d runs hit the wall-clock guard in the pool and completed when executed again alone: %s" % (len(retried), retried))
 
     rc = 0
     if broken:
